@@ -765,14 +765,43 @@ func c19ExpiryRaceProbe(t fataler, st *kvh.Stats) {
 		}
 		var once sync.Once
 		var serr error
+		setDone := make(chan struct{})
+		waited := false
 		gIO.SetOnPoint(func(name string, k []byte) {
 			if name == "get.indexed" && string(k) == string(key) {
-				once.Do(func() { serr = r.dts.Set(key, fresh, time.Hour) })
+				once.Do(func() {
+					// the other client runs in a goroutine of its own; the reader goes on when the Set is acknowledged - or when
+					// it has come to wait for a lock the reader holds (a service that serialises its commands is as good as
+					// one that does not: then the Set simply is acknowledged after the Get)
+					go c19Refresher(r.dts, key, fresh, &serr, setDone)
+					for {
+						select {
+						case <-setDone:
+							return
+						case <-time.After(time.Millisecond):
+							if isLockWait(goroutineState("c19Refresher")) {
+								waited = true
+								return
+							}
+						}
+					}
+				})
 			}
 		})
 		v1, err1 := r.dts.Get(key)
 		gIO.SetOnPoint(nil)
-		got = append(got, fmt.Sprintf("Get(lease) with Set(lease, fresh-holder, 1h)=%v acknowledged inside it = (%q, %v)", serr, v1, err1))
+		notReached := false
+		once.Do(func() { notReached = true; close(setDone) }) // the Get never came by the hook point: nothing was started
+		<-setDone
+		if notReached {
+			r.cleanup()
+			st.Label("expiry-probe-not-reached")
+			continue
+		}
+		if waited {
+			st.Label("expired-string-re-set-while-a-get-of-another-client-holds-a-lock-(the-set-waits)")
+		}
+		got = append(got, fmt.Sprintf("Get(lease) with Set(lease, fresh-holder, 1h)=%v of another client started inside it (waited for the Get: %v) = (%q, %v)", serr, waited, v1, err1))
 		v2, err2 := r.dts.Get(key)
 		got = append(got, fmt.Sprintf("Get(lease) = (%q, %v)", v2, err2))
 		bad := serr != nil || err2 != nil || string(v2) != string(fresh)
@@ -801,6 +830,17 @@ func c19ExpiryRaceProbe(t fataler, st *kvh.Stats) {
 			return
 		}
 	}
+}
+
+//go:noinline
+func c19Refresher(dts *datatype.DataTypeService, key, val []byte, err *error, done chan struct{}) {
+	defer close(done)
+	defer func() {
+		if p := recover(); p != nil {
+			*err = fmt.Errorf("panic: %v", p)
+		}
+	}()
+	*err = dts.Set(key, val, time.Hour)
 }
 
 func init() {
